@@ -4652,7 +4652,7 @@ def unpickle_entity(d):
         attr = entity._adict_[attrname]
         if attr.pk_offset is not None: continue
         avdict[attr] = val
-    obj._db_set_(avdict, unpickling=True)
+    if avdict: obj._db_set_(avdict, unpickling=True)  # an object pickled by primary key only stays an unloaded placeholder (and is refined when loaded)
     return obj
 
 def safe_repr(obj):
